@@ -307,13 +307,22 @@ def r3_name_selector(ctx):
     cf = [c for c in calls_in(rate) if call_name(c) == "self.compute_features"]
     ctx.floor("compute_features calls in rate()", len(cf), 2)
     kinds = set()
+    from ..symres import Resolver as _Rr
+    Rr_ = _Rr(rate)
     for c in cf:
-        kw = {k.arg: norm(k.value) for k in c.keywords}
+        kw = {k.arg: Rr_.text(k.value) for k in c.keywords}
         ctx.check(kw.get("names") == "self.names", c,
                   f"rate(): compute_features(names={kw.get('names')})",
                   "features at rating time are not restricted to the "
                   "rater's names")
-        kinds.add(kw.get("which_type"))
+        wt = kw.get("which_type")
+        # a module-level name for the type selection
+        if wt in m.assigns and len(m.assigns[wt]) == 1:
+            wt = norm(m.assigns[wt][-1])
+        if isinstance(wt, str):
+            wt = wt.replace("('continuous',)", "['continuous']").replace(
+                "['binary']", "'binary'")
+        kinds.add(wt)
     ctx.check(kinds == {"['continuous']", "'binary'"}, rate,
               f"rate(): feature types {sorted(kinds)}",
               "rating no longer separates continuous (regressor input) and "
